@@ -223,6 +223,21 @@ impl ParsedTestCase {
                 }));
             }
         }
+        // Virtual signals which were supplied as part of `signals` (taken from another
+        // test case) read outputs as well, even though their source is not part of this test
+        for name in signals.iter().flat_map(|sig| match &sig.typ {
+            SignalType::Virtual { expr } => expr.expr.names(),
+            _ => vec![],
+        }) {
+            if let Some(i) = signals
+                .iter()
+                .position(|sig| sig.name == name && sig.is_output())
+            {
+                if !read_outputs.contains(&i) {
+                    read_outputs.push(i);
+                }
+            }
+        }
         Ok(read_outputs)
     }
 
